@@ -2101,3 +2101,125 @@ Proof.
   change (k_queue (kernel_op (p_k s) (w_fs (p_world s)) o)) with (k_queue (p_k s1)). rewrite Hst.
   eexists _, _. split; [reflexivity|]. rewrite E1, E2, E3. split; [reflexivity|]. split; [exact S' | apply S'].
 Qed.
+
+(* ================================================================== a decision procedure for Cover (used by the witnesses) *)
+Definition scopeb (C : cfg) (p : bytes) : bool :=
+  if c_recursive C then beqb p (c_root C) || under (c_root C) p else beqb p (c_root C).
+
+Definition opt_eqb {A} (eqb : A -> A -> bool) (a : option A) (b : A) : bool :=
+  match a with Some x => eqb x b | None => false end.
+
+Definition covb (k : kst) (r : rstate) (e : fent) : bool :=
+  match watch_of_ino k (f_ino e) with
+  | Some kw => opt_eqb beqb (alookup N.eqb (kw_wd kw) (pfw r)) (f_path e) &&
+               opt_eqb N.eqb (alookup beqb (f_path e) (wfp r)) (kw_wd kw)
+  | None => false
+  end.
+
+Definition coverb (C : cfg) (t : fs) (k : kst) (r : rstate) : bool :=
+  forallb (fun e => negb (f_dir e) || negb (scopeb C (f_path e)) || covb k r e) t.
+
+Lemma scopeb_spec C p : scopeb C p = true <-> scope C p.
+Proof.
+  unfold scopeb, scope. destruct (c_recursive C).
+  - rewrite orb_true_iff, beqb_eq. tauto.
+  - apply beqb_eq.
+Qed.
+
+Lemma covb_spec k r e : covb k r e = true <-> exists kw, cov k r e kw.
+Proof.
+  unfold covb, cov. destruct (watch_of_ino k (f_ino e)) as [kw|].
+  - rewrite andb_true_iff. unfold opt_eqb. split.
+    + intros [H1 H2]. exists kw. destruct (alookup N.eqb (kw_wd kw) (pfw r)); [|discriminate].
+      destruct (alookup beqb (f_path e) (wfp r)); [|discriminate]. apply beqb_eq in H1. apply N.eqb_eq in H2. now subst.
+    + intros (kw' & H0 & H1 & H2). injection H0 as ->. now rewrite H1, H2, beqb_refl, N.eqb_refl.
+  - split; [discriminate | intros (kw & H & _); discriminate].
+Qed.
+
+Lemma coverb_spec C t k r : coverb C t k r = true <-> Cover C t k r.
+Proof.
+  unfold coverb, Cover. rewrite forallb_forall. split.
+  - intros H e He De Se. specialize (H e He). apply scopeb_spec in Se. rewrite De, Se in H. now apply covb_spec.
+  - intros H e He. destruct (f_dir e) eqn:De; [|reflexivity]. destruct (scopeb C (f_path e)) eqn:Se; [|reflexivity].
+    apply covb_spec. apply H; auto. now apply scopeb_spec.
+Qed.
+
+(* ------------------------------------------------------------------ concrete witnesses *)
+Definition pR : bytes := [47;115;47;82]%N.          (* "/s/R" - the watched root *)
+Definition pO : bytes := [47;115;47;79]%N.          (* "/s/O" - outside *)
+Definition sub (d : bytes) (n : N) : bytes := d ++ sep :: [n].
+Definition w0 : world :=
+  {| w_fs := [ {| f_path := pR; f_ino := 1; f_dir := true |}; {| f_path := pO; f_ino := 2; f_dir := true |};
+               {| f_path := sub pO 100; f_ino := 3; f_dir := true |};
+               {| f_path := sub (sub pO 100) 101; f_ino := 4; f_dir := true |} ];
+     w_next_ino := 5 |}.
+Definition cfgx (recursive movein : bool) : cfg :=
+  {| c_recursive := recursive; c_mask := WATCHDOG_ALL; c_root := pR; c_fix_ignored := true; c_fix_movein := movein;
+     c_fix_simulate := true; c_faults := [] |}.
+Definition Px (movein : bool) : pcfg :=
+  {| pc_reader := cfgx true movein; pc_full := false; pc_filter := None; pc_delay := 5 |}.
+
+Lemma npath_sub d n : gpath d -> valid_name [n] = true -> npath (sub d n).
+Proof. intros G V. exists d, [n]. split; [reflexivity | split; assumption]. Qed.
+
+Lemma w0_wf : wf_fs w0.
+Proof.
+  assert (GS : gpath [47;115]%N) by (split; [discriminate | reflexivity]).
+  assert (NR : npath pR) by (apply (npath_sub [47;115]%N 82 GS); reflexivity).
+  assert (NO : npath pO) by (apply (npath_sub [47;115]%N 79 GS); reflexivity).
+  assert (ND : npath (sub pO 100)) by (apply npath_sub; [now apply npath_gpath | reflexivity]).
+  assert (NE : npath (sub (sub pO 100) 101)) by (apply npath_sub; [now apply npath_gpath | reflexivity]).
+  constructor; cbn [w0 w_fs w_next_ino map f_path f_ino].
+  - repeat constructor; cbn; intuition discriminate.
+  - repeat constructor; cbn; intuition discriminate.
+  - intros e [<-|[<-|[<-|[<-|[]]]]]; cbn; lia.
+  - intros e [<-|[<-|[<-|[<-|[]]]]]; assumption.
+  - intros e d [<-|[<-|[<-|[<-|[]]]]] [<-|[<-|[<-|[<-|[]]]]] Hu; vm_compute in Hu; try discriminate.
+    + eexists. split; [right; left; reflexivity | split; reflexivity].
+    + eexists. split; [right; right; left; reflexivity | split; reflexivity].
+    + eexists. split; [right; right; left; reflexivity | split; reflexivity].
+Qed.
+
+(* 2e: the pinned code (no watch for a directory that arrives from outside) loses Cover *)
+Lemma pinned_movein_refuted :
+  exists C w ops, c_fix_movein C = false /\ c_fix_ignored C = true /\ c_fix_simulate C = true /\ c_faults C = [] /\
+    mask_ok C /\ wf_fs w /\ fisdir (c_root C) (w_fs w) = true /\
+    exists r0 k0 w' k' r', construct C kinit (w_fs w) = Some (r0, k0) /\ rrun C w k0 r0 ops = Some (w', k', r') /\
+                           ~ Cover C (w_fs w') k' r'.
+Proof.
+  exists (cfgx true false), w0, [Rename (sub pO 100) (sub pR 100)].
+  repeat (split; [first [reflexivity | exact w0_wf | (repeat split; vm_compute; discriminate)]|]).
+  eexists _, _, _, _, _. split; [vm_compute; reflexivity|]. split; [vm_compute; reflexivity|].
+  intros H. apply coverb_spec in H. vm_compute in H. discriminate.
+Qed.
+
+(* the same history on the repaired code: the arrived directory and its sub-directory are covered *)
+Lemma repaired_movein_example :
+  exists r0 k0 w' k' r', construct (cfgx true true) kinit (w_fs w0) = Some (r0, k0) /\
+    rrun (cfgx true true) w0 k0 r0 [Rename (sub pO 100) (sub pR 100)] = Some (w', k', r') /\
+    Cover (cfgx true true) (w_fs w') k' r' /\ fisdir (sub (sub pR 100) 101) (w_fs w') = true.
+Proof.
+  eexists _, _, _, _, _. split; [vm_compute; reflexivity|]. split; [vm_compute; reflexivity|].
+  split; [apply coverb_spec; vm_compute; reflexivity | vm_compute; reflexivity].
+Qed.
+
+(* the pacing exception of the property: mkdir a; rename a b before the first read - add_watch(a) fails with ENOENT,
+   the MOVED_TO branch of the repaired code watches b *)
+Lemma mkdir_rename_example :
+  exists s0 s obs, pinit (Px true) w0 = Some s0 /\
+    prun (Px true) s0 [AOp (Mkdir (sub pR 97)); AOp (Rename (sub pR 97) (sub pR 98)); ARead 3] [] = Done (s, obs) /\
+    fisdir (sub pR 98) (w_fs (p_world s)) = true /\ k_queue (p_k s) = [] /\
+    Cover (cfgx true true) (w_fs (p_world s)) (p_k s) (p_r s).
+Proof.
+  eexists _, _, _. split; [vm_compute; reflexivity|]. split; [vm_compute; reflexivity|].
+  split; [vm_compute; reflexivity|]. split; [vm_compute; reflexivity|]. apply coverb_spec. vm_compute. reflexivity.
+Qed.
+
+Lemma mkdir_rename_pinned_refuted :
+  exists s0 s obs, pinit (Px false) w0 = Some s0 /\
+    prun (Px false) s0 [AOp (Mkdir (sub pR 97)); AOp (Rename (sub pR 97) (sub pR 98)); ARead 3] [] = Done (s, obs) /\
+    k_queue (p_k s) = [] /\ ~ Cover (cfgx true false) (w_fs (p_world s)) (p_k s) (p_r s).
+Proof.
+  eexists _, _, _. split; [vm_compute; reflexivity|]. split; [vm_compute; reflexivity|].
+  split; [vm_compute; reflexivity|]. intros H. apply coverb_spec in H. vm_compute in H. discriminate.
+Qed.
